@@ -136,6 +136,9 @@ Fixpoint prun (cfg : tconfig) (s : tstate) (tr : list tlabel) : option tstate :=
 
 Definition tevent := (Z * Z * label * obs)%type.
 
+(* how the harness writes an event: the stamps are parsed as integers through the argument scope *)
+Definition ev (lo hi : Z) (l : label) (o : obs) : tevent := (lo, hi, l, o).
+
 (* returns (final state or None if an event is not an enabled step of the untimed system, observation
    mismatches, events that are steps of the untimed system but not of the timed one: a timer wake-up that came
    too early) *)
